@@ -19,6 +19,18 @@ class DpopSpec(netx.Spec):
     def canon_extra(self, world):
         return tuple(sorted(set(world.finished)))
 
+    # "starts_first" instances (5 variables): computations are started in name order before any delivery, then ALL
+    # delivery interleavings are explored (start-order effects are covered exhaustively by the <=4 variable families)
+    def start_allowed(self, world, name):
+        if not self.spec.get("starts_first"):
+            return True
+        return name == min(n for n in world.comps if n not in world.started)
+
+    def consuming(self, world, name):
+        if not self.spec.get("starts_first"):
+            return True
+        return len(world.started) == len(world.comps)
+
     def _desc(self):
         return f"DCOP {self.spec}"
 
@@ -111,6 +123,38 @@ def instances(tier):
                         if costs:
                             spec["costs"] = costs
                         yield spec
+    # all connected graphs on 4 variables (binary constraints), incl. cycles with branching below the root
+    # (several children with different separators), small table menus
+    names4 = ["v0", "v1", "v2", "v3"]
+    pairs4 = list(itertools.combinations(names4, 2))
+    menu4 = [gen.T3_BIN[2], gen.T3_BIN[0], [[1, 0], [0, 5]]]
+    for r in range(3, 7):
+        for edges in itertools.combinations(pairs4, r):
+            if len(gen.components({"vars": {v: [0, 1] for v in names4}, "cons": [{"scope": list(e)} for e in edges]})) != 1:
+                continue
+            if q and r > 4:
+                tab_iter = [tuple(menu4[(i + k) % 3] for i in range(r)) for k in range(3)]
+            elif q:
+                tab_iter = [t for j, t in enumerate(itertools.product(menu4, repeat=r)) if j % 3 == 0]
+            else:
+                tab_iter = itertools.product(menu4, repeat=r)
+            for tabs in tab_iter:
+                for mode in ("min", "max"):
+                    yield {"vars": {v: [0, 1] for v in names4}, "cons": [{"name": f"c{i}", "scope": list(e), "table": t} for i, (e, t) in enumerate(zip(edges, tabs))], "mode": mode}
+    # all connected labelled graphs on 5 variables with 4-6 (quick: 4-5) binary constraints: deep trees with back edges,
+    # nodes with several children whose separators differ; one rotating table assignment per graph
+    names5 = ["v0", "v1", "v2", "v3", "v4"]
+    pairs5 = list(itertools.combinations(names5, 2))
+    gi = 0
+    for r in (4, 5) if q else (4, 5, 6):
+        for edges in itertools.combinations(pairs5, r):
+            if len(gen.components({"vars": {v: [0, 1] for v in names5}, "cons": [{"scope": list(e)} for e in edges]})) != 1:
+                continue
+            gi += 1
+            for k in ((gi % 3,) if q else (0, 1, 2)):
+                tabs = [menu4[(i + k) % 3] for i in range(r)]
+                mode = ("min", "max")[(gi + k) % 2]
+                yield {"vars": {v: [0, 1] for v in names5}, "cons": [{"name": f"c{i}", "scope": list(e), "table": t} for i, (e, t) in enumerate(zip(edges, tabs))], "mode": mode, "starts_first": True}
     # special families: 3-valued domains, str domains, big magnitudes, negative/float entries
     for mode in ("min", "max"):
         yield {"vars": {"v0": [0, 1, 2], "v1": [0, 1, 2]}, "cons": [{"name": "c0", "scope": ["v0", "v1"], "table": ls_common.T3x3}], "mode": mode}
